@@ -1,7 +1,9 @@
 package main
 
 import (
+	_ "embed"
 	"go/token"
+	"go/types"
 	"sort"
 	"strconv"
 	"strings"
@@ -20,6 +22,24 @@ import (
 // the anchor dominate what happens inside the helper. This is what makes the
 // guard rules indifferent to "extract the tail of a long function" and
 // "wrap a block in a closure" refactorings.
+
+// knownFuncs lists the named functions of the tree the rules were written
+// against. They are anchors and stay analysed on their own; only functions that
+// do not appear here (split off or extracted later) and closures invoked on the
+// spot are folded into their single caller.
+//
+//go:embed known_funcs.txt
+var knownFuncsTxt string
+
+var knownFuncs = func() map[string]bool {
+	m := map[string]bool{}
+	for _, l := range strings.Split(knownFuncsTxt, "\n") {
+		if l = strings.TrimSpace(l); l != "" {
+			m[l] = true
+		}
+	}
+	return m
+}()
 
 type frame struct {
 	fn     *ssa.Function
@@ -94,7 +114,7 @@ func (w *World) inlineSites() map[*ssa.Function]*frame {
 			continue
 		}
 		if h.Parent() == nil {
-			if h.Object() == nil {
+			if h.Object() == nil || knownFuncs[FuncName(h)] {
 				continue
 			}
 			if h.Object().Exported() {
@@ -303,4 +323,86 @@ func (w *World) OwnerIn(fn *ssa.Function, accept func(name string) bool) *ssa.Fu
 		cur = fr.parent
 	}
 	return fn
+}
+
+// Folded reports whether fn is analysed as part of its single caller.
+func (w *World) Folded(fn *ssa.Function) bool { return w.inlineSites()[fn] != nil }
+
+// CalleeConv returns the analysis of the function called at call together with
+// a conversion of its shapes into the caller's terms (the callee's parameters
+// replaced by the call's arguments as the caller a sees them). It lets a rule
+// state what reaches a sink inside a helper in the terms of the helper's caller,
+// whatever the helper's signature looks like.
+func (a *FnA) CalleeConv(call ssa.Instruction) (*FnA, func(*Shape) *Shape) {
+	c := callCommon(call)
+	if c == nil || c.StaticCallee() == nil || c.StaticCallee().Blocks == nil {
+		return nil, nil
+	}
+	callee := c.StaticCallee()
+	args := make([]*Shape, len(c.Args))
+	for i, arg := range c.Args {
+		args[i] = a.sh.Of(arg)
+	}
+	var conv func(s *Shape) *Shape
+	conv = func(s *Shape) *Shape {
+		if s == nil {
+			return nil
+		}
+		if s.K == "param" {
+			for i := range args {
+				if s.S == "p"+strconv.Itoa(i) {
+					return args[i]
+				}
+			}
+		}
+		if len(s.A) == 0 {
+			return s
+		}
+		n := &Shape{K: s.K, S: s.S, F: s.F}
+		for _, ch := range s.A {
+			n.A = append(n.A, conv(ch))
+		}
+		if n.K == "fld" && len(n.A) == 1 {
+			return mkFld(n.A[0], n.S)
+		}
+		return n
+	}
+	return a.w.A(callee), conv
+}
+
+// argsOfType returns the shapes of the values of the given type handed to a call: arguments of that
+// type, and fields of that type of struct-literal arguments (a parameter group). Position and
+// grouping of parameters do not matter.
+func argsOfType(a *FnA, call ssa.Instruction, typeName string) []*Shape {
+	c := callCommon(call)
+	if c == nil {
+		return nil
+	}
+	var out []*Shape
+	for _, arg := range c.Args {
+		s := a.sh.Of(arg)
+		if TypeName(arg.Type()) == typeName {
+			out = append(out, s)
+			continue
+		}
+		t := arg.Type()
+		if p, ok := t.Underlying().(*types.Pointer); ok {
+			t = p.Elem()
+		}
+		st, ok := t.Underlying().(*types.Struct)
+		if !ok || s.K != "lit" {
+			continue
+		}
+		for i := 0; i < st.NumFields(); i++ {
+			if TypeName(st.Field(i).Type()) != typeName {
+				continue
+			}
+			for k, f := range s.F {
+				if f == st.Field(i).Name() && k < len(s.A) {
+					out = append(out, s.A[k])
+				}
+			}
+		}
+	}
+	return out
 }
